@@ -689,6 +689,30 @@ func execHistory(t *testing.T, c *Case, cr *CaseResult, ops []HistOp, every bool
 
 	// checkAll compares every session with its model; returns false to stop
 	checkAll := func(step int, op HistOp, kind string) bool {
+		// The live views are read before any model is decoded: decoding adds
+		// nodes, which resets the process-wide children-by-tag cache, and the
+		// views have to be read from the caches exactly as the edit left them.
+		lives := make([]map[string]string, len(sessions))
+		liveErrs := make([]error, len(sessions))
+		for si, ss := range sessions {
+			lives[si], liveErrs[si] = views(ss.doc)
+		}
+		// Reading the views is itself a read-only operation: a second pass
+		// right away (same caches, nothing in between) must give the same.
+		for si, ss := range sessions {
+			if liveErrs[si] != nil {
+				continue
+			}
+			again, err := views(ss.doc)
+			if err != nil {
+				continue
+			}
+			if view, d := diffViews(again, lives[si]); view != "" {
+				cr.violate(prop+"/purity", fmt.Sprintf("view=%s changed by reading the views", view),
+					fmt.Sprintf("step %d (after %s): reading every view twice in a row gives different results\n%s", step, op.Op, d))
+				return false
+			}
+		}
 		for si, ss := range sessions {
 			text := ss.doc.String()
 			model, err := decode(text)
@@ -701,7 +725,7 @@ func execHistory(t *testing.T, c *Case, cr *CaseResult, ops []HistOp, every bool
 				cr.Probes["duplicate_pointers_end"]++
 				return false
 			}
-			live, err1 := views(ss.doc)
+			live, err1 := lives[si], liveErrs[si]
 			want, err2 := views(model)
 			if err1 != nil || err2 != nil {
 				cr.Masked = "crash"
